@@ -275,3 +275,140 @@ class RowSnapshots(object):
                         return ("c01_row", {"tree": who, "node": m.full_name, "date": str(date), "column": bad[0], "recorded": bad[1], "end_of_date_state": bad[2],
                                             "existed": m.full_name in snap})
         return None
+
+
+class Probe(object):
+    """Wraps a generated algo: after (or before) delegating, with seeded probability, runs a callback on the live tree.
+    Carries run_always over; shared context survives bt's deep copies."""
+
+    def __init__(self, algo, ctx, desc=None):
+        self.algo = algo
+        self.ctx = ctx
+        self.desc = desc
+        if hasattr(algo, "run_always"):
+            self.run_always = algo.run_always
+
+    @property
+    def name(self):
+        return getattr(self.algo, "name", type(self.algo).__name__)
+
+    def __call__(self, target):
+        self.ctx.before(self, target)
+        r = self.algo(target)
+        self.ctx.after(self, target, r)
+        return r
+
+
+class SharedCtx(object):
+    def __deepcopy__(self, memo):
+        return self
+
+    def before(self, probe, target):
+        pass
+
+    def after(self, probe, target, result):
+        pass
+
+    def run_kwargs(self):
+        return {"wrap": lambda algo, desc: Probe(algo, self, desc)}
+
+
+class IdentityCtx(SharedCtx):
+    """C01 inside backtests: identity through the public properties at completed updates and between algos; rows vs snapshots."""
+
+    def __init__(self, cs, p_update=0.25, p_algo=0.15):
+        import random as _r
+
+        self.rng = _r.Random(cs ^ 0xC01)
+        self.rows = RowSnapshots()
+        self.viol = None
+        self.evals = 0
+        self.points = 0
+        self.p_update = p_update
+        self.p_algo = p_algo
+        self.busy = False
+        ins.ON_UPDATE_DONE.append(self.on_update)
+
+    def _check(self, root, where):
+        if self.viol is not None or self.busy:
+            return
+        self.busy = True
+        try:
+            v, n = mon1.check_identity(root, where)
+            self.evals += n
+            self.points += 1
+            if v:
+                self.viol = v[0]
+        finally:
+            self.busy = False
+
+    def on_update(self, root, date):
+        if self.rng.random() < self.p_update:
+            self._check(root, "after completed update")
+
+    def after(self, probe, target, result):
+        if self.rng.random() < self.p_algo:
+            self._check(ins.top(target), "after algo %s" % probe.name)
+
+
+def c01_w2(run, cnt, res, ctx):
+    bump(cnt, "identity_evals", ctx.evals)
+    bump(cnt, "identity_points", ctx.points)
+    if ctx.viol:
+        mech, w = ctx.viol
+        if mech == "c01_weight" and w.get("is_strategy") and w.get("root_bankrupt"):
+            mech = "k5_weight"
+        return (mech, w)
+    # end-of-run identity on every tree
+    for who, r in mon1.trees(run.root):
+        v, n = mon1.check_identity(r, who)
+        bump(cnt, "identity_evals", n)
+        if v:
+            return v[0]
+    return ctx.rows.check_rows(run, cnt)
+
+
+class InjectCtx(SharedCtx):
+    """C08 schedule injection: redundant update calls and property reads before/after generated algos."""
+
+    READS = ["value", "weight", "price", "prices", "values", "positions", "notional_value", "outlays"]
+    SREADS = ["cash", "fees", "flows", "capital", "universe"]
+
+    def __init__(self, cs, p=0.35):
+        import random as _r
+
+        self.rng = _r.Random(cs ^ 0xC08)
+        self.p = p
+        self.updates = 0
+        self.reads = 0
+
+    def _inject(self, target):
+        rng = self.rng
+        if rng.random() > self.p:
+            return
+        t = ins.top(target)
+        for _ in range(rng.randint(1, 3)):
+            if rng.random() < 0.5:
+                if not (isinstance(t.now, int) and t.now == 0):
+                    t.update(t.now)
+                    self.updates += 1
+            else:
+                m = rng.choice(t.members)
+                props = self.READS + (self.SREADS if isinstance(m, StrategyBase) else ["position"])
+                getattr(m, rng.choice(props))
+                self.reads += 1
+
+    def before(self, probe, target):
+        self._inject(target)
+
+    def after(self, probe, target, result):
+        if self.rng.random() < 0.3:
+            self._inject(target)
+
+
+def all_frames(root):
+    out = {}
+    for who, r in mon1.trees(root):
+        for k, v in ins.frames(r).items():
+            out[who + "|" + k] = v
+    return out
